@@ -66,6 +66,7 @@ pub trait Shapes {
     fn r_mut_bytes(&mut self) -> &mut [u8];
     fn r_str(&self) -> &str;
     fn r_opt(&self) -> Option<u32>;
+    fn r_opt_usize(&self) -> Option<usize>;
     fn r_opt_ref(&self) -> Option<&u64>;
     fn r_res(&self) -> Result<u64, u8>;
     #[int_result]
@@ -227,6 +228,9 @@ impl Shapes for Sh {
     }
     fn r_opt(&self) -> Option<u32> {
         if self.k & 1 == 1 { Some((self.k >> 8) as u32) } else { None }
+    }
+    fn r_opt_usize(&self) -> Option<usize> {
+        if self.k & 1 == 1 { Some((self.k >> 1) as usize | ((self.k as usize & 2) << 62)) } else { None }
     }
     fn r_opt_ref(&self) -> Option<&u64> {
         if self.k & 2 == 2 { Some(&self.k) } else { None }
@@ -701,7 +705,13 @@ nd::harnesses! {
                 let mut i = 0;
                 while i < n { assert!(b[i] == buf[i]); i += 1; }
             }
-            4 => assert!(obj.r_opt() == if k & 1 == 1 { Some((k >> 8) as u32) } else { None }),
+            4 => {
+                assert!(obj.r_opt() == if k & 1 == 1 { Some((k >> 8) as u32) } else { None });
+                // every value of the payload type is a legitimate Some(..), usize::MAX included
+                let w = if k & 1 == 1 { Some((k >> 1) as usize | ((k as usize & 2) << 62)) } else { None };
+                nd::cover!(w == Some(usize::MAX), "Some(usize::MAX)");
+                assert!(obj.r_opt_usize() == w);
+            }
             5 => {
                 let r = obj.r_opt_ref();
                 assert!(r.is_some() == (k & 2 == 2));
